@@ -14,6 +14,7 @@ EXPLANATION = (
     "whose methods other than the constructor write self.* or that own an iterator: computed from the source) is, at each site where a Simulation or node reads it, wrapped in "
     "copy.deepcopy(...) or re-initialised by an initialise() that re-assigns every run-time-state attribute. No module-level state is written at run time except ciw.rng (by seed) "
     "and the decimal precision (by an exact Simulation's constructor). Bit-identical floats then follow from CPython determinism, which is not analysed.")
+EXPLANATION += (" Added later: " 'the precision write does not depend on the precision found in the process.')
 RULE = "instances = random-source call sites of the package, borrow sites of Network fields, module-level writes"
 
 NETWORK_FIELDS = {"arrival_distributions": "Distribution", "service_distributions": "Distribution", "batching_distributions": "Distribution",
